@@ -362,6 +362,14 @@ class Interp:
                 outs = nxt
             result += [(is_and, q) for _, q in outs]
             return result
+        if isinstance(test, ast.Attribute) and test.attr == 'arcs':
+            # truthiness of a state's arc list: does the state have an outgoing arc in the automaton built so far
+            out = []
+            for val, q in self.eval(test.value, p):
+                if val[0] != 'state':
+                    raise NotModelled('GEN-5: condition not modelled: %s' % norm(test))
+                out.append((any(a[0] == val[1] for a in q.arcs), q))
+            return out
         if isinstance(test, ast.Call) and isinstance(test.func, ast.Attribute) and norm(test.func.value) == 'self' \
                 and not test.args and not test.keywords and test.func.attr in self.methods:
             # a predicate method: `return EXPR`
